@@ -126,10 +126,11 @@ def run_cases(files, jobs=4, timeout=900):
 
 
 def load_known(prop):
-    p = os.path.join(V, "known_findings.json")
-    if not os.path.exists(p):
-        return []
-    return [k for k in json.load(open(p)).get("findings", []) if k.get("property") == prop]
+    # known-findings files are committed under /verif/known/ (one per property) and never written at run time
+    out = []
+    for p in sorted(glob.glob(os.path.join(V, "known", "*.json"))):
+        out += [k for k in json.load(open(p)).get("findings", []) if k.get("property") == prop]
+    return out
 
 
 def main(REG):
